@@ -76,6 +76,54 @@ def coq_site(desc):
     return desc
 
 
+def check_templates(res, hbin, d, tier, only=None):
+    """exploration-only stream (checks/c06_templates.py): constructs outside the MiniVHDL reference, outside the theorems"""
+    from checks import c06_templates as T
+    progs = T.all_programs(seed(), tier)
+    if only:
+        progs = [p for p in progs if p[0] == only or p[0] == only.rsplit(".", 2)[0] + ".base"]
+    path = os.path.join(d, "templates.bundle")
+    T.write_bundle(progs, path)
+    hr, log = base.run_harness(hbin, path, os.path.join(d, "templates.out"), os.path.join(d, "wd_t"), threads=8, batch=30)
+    if hr is None:
+        res.violation("harness c05 run crashed on the template stream", {"kind": "harness", "log": log[-2000:]}, no_failing_input=True)
+        return
+    impl, _ = hr
+    kinds = Counter()
+    nbad = 0
+    for pid, lib, files, exp in progs:
+        o = impl.get(pid)
+        errs = base.errors_of(o) if o else []
+        res.count_case("template|%s" % pid, True)
+        rp = {"kind": "input", "template": pid, "seed": seed(), "tier": tier, "files": {lib + "_" + n: t for n, t in files},
+              "expect": exp, "diagnostics": [base.describe_diag(x) for x in errs][:10],
+              "replay_cmd": "./check C06 --replay <this file>"}
+        what = None
+        if o is None or o["panic"]:
+            what = "Project::analyse panics / no result on template program %s" % pid
+        elif exp is None:
+            if errs:
+                what = "template program %s (no fault planted; valid by inspection) has an error: %s" % (pid, base.describe_diag(errs[0]))
+        else:
+            kinds["%s/%s" % (exp["fault"], exp["kind"])] += 1
+            if not T.satisfied(exp, lib, errs):
+                what = ("template plant `%s` (%s) at `%s` is not reported: no error with code in %s %s %s %d:%d+%d; errors: %s"
+                        % (exp["fault"], exp["kind"], exp["site"], exp["codes"],
+                           "covering" if exp["cover"] else "on the statement at", exp["file"], exp["line"], exp["col"], exp["len"],
+                           rp["diagnostics"][:3]))
+        if what:
+            nbad += 1
+            if nbad <= 4:
+                res.violation(what + "  [exploration-only stream, outside the theorems]", rp)
+    res.coverage["template_programs"] = len(progs)
+    res.coverage["template_plants"] = dict(kinds)
+    for fn in ("templates.bundle", "templates.out"):
+        try:
+            os.remove(os.path.join(d, fn))
+        except OSError:
+            pass
+
+
 def main(tier, replay=None):
     res = Result(PROP, tier, level="other")
     d = rundir(PROP)
@@ -88,7 +136,11 @@ def main(tier, replay=None):
     if replay:
         rp = json.load(open(replay))
         reqs = [rp["request"]] if "request" in rp else []
+        if "template" in rp:
+            os.environ["VERIF_SEED"] = str(rp.get("seed", sd))
+            check_templates(res, hbin, d, rp.get("tier", tier), only=rp["template"])
     else:
+        check_templates(res, hbin, d, tier)
         n = 300 if tier == "quick" else 6000
         nf = 2 if tier == "quick" else 4
         reqs = base.read_corpus("C06.cases") + base.gen_requests(sd, n, 0, 0, nf, first_tag=1000)
@@ -226,7 +278,15 @@ def main(tier, replay=None):
                         "the planted program and blames exactly the planted node with the class of the fault; units that do not "
                         "contain the site are unchanged and the units before the faulty one are accepted as before.  exploration "
                         "half (decisive for the implementation): the analyser (not modelled) must report an error of the class at "
-                        "that token and none in independent units, on every planted program of the run"),
+                        "that token and none in independent units, on every planted program of the run.  An additional "
+                        "exploration-only stream (checks/c06_templates.py; coverage.template_programs / template_plants) of "
+                        "hand-written template programs plants undeclared names and wrong-typed literals in every expression "
+                        "position of statement forms the MiniVHDL reference does not have (exit/next with label x condition, wait "
+                        "on/until/for, assert/report/severity, after/reject, loop bounds, case expressions, conditional and "
+                        "selected assignments, generate conditions and ranges, call actuals positional/named/individual) and "
+                        "duplicates declarations of every kind in every kind of region (second declaration / second body with "
+                        "and without separate declaration / protected body method / ports, generics, fields, literals, "
+                        "parameters): outside the theorems, valid-by-inspection bases are analysed too"),
         "partial": True,
         "trusted_base": TRUSTED_BASE_COMMON + [
             "class -> ErrorCode table (checks/c06.py CLASS_CODES) reviewed against vhdl_lang/src/analysis",
